@@ -357,10 +357,11 @@ def c02(tier, seed):
     _star_big(out, "C02", seed, thorough)
     out.add_vh(run_vh(["secret-scan", "--seed", seed, "--n", 200 if thorough else 40]), only={"C02"})
     _sharded_trace(out, "C02", "Trace_Shamir", "Trace_Shamir.cfg",
-                   lambda k, tr: (["cert-record", "--out", tr, "--seed", seed + k, "--groups", 64, "--maxt", 40 if thorough else 18, "--sweep"]
-                                  if k == 0 else
-                                  ["cert-record", "--out", tr, "--seed", seed + k, "--groups", 8, "--maxt", 64 if thorough else 24]),
-                   4 if thorough else 2, "polynomial certificate")
+                   lambda k, tr: (["cert-record", "--out", tr, "--seed", seed + k, "--groups", 200, "--sweep",
+                                   "--mint", [2, 20, 30, 36, 41, 52][k], "--maxt", [19, 29, 35, 40, 51, 64][k]]
+                                  if k < (6 if thorough else 4) else
+                                  ["cert-record", "--out", tr, "--seed", seed + k, "--groups", 6, "--maxt", 128 if thorough else 64]),
+                   8 if thorough else 5, "polynomial certificate")
     return out
 
 
